@@ -97,9 +97,20 @@ def gen_bounds(r, d, allow_scalar=True):
     return lo, hi, False
 
 
+def hair_outside(r, lo, hi):
+    """a value a hair outside [lo, hi]: bound*(1 +- 1e-9..1e-6) (relative to the width when the bound is 0)"""
+    eta = r.loguniform(1e-9, 1e-6)
+    up = r.chance(0.5)
+    b = hi if up else lo
+    step = eta * (abs(b) if b != 0 and r.chance(0.7) else (hi - lo))
+    return b + step if up else b - step
+
+
 def gen_value(r, lo, hi, mode):
     """one feature value; mode: in | mixed | corner"""
     m = r.u01()
+    if mode in ("mixed", "corner") and r.chance(0.08):
+        return hair_outside(r, lo, hi)
     if mode == "corner":
         if m < 0.9:
             return lo if r.chance(0.5) else hi
@@ -143,7 +154,46 @@ def gen_n(r, ctx):
     return r.randint(6, 60) if r.chance(0.7) else r.randint(6, 14)
 
 
+def unit_vector(r, d, axis_p=0.5):
+    if r.chance(axis_p):
+        v = [0.0] * d
+        v[r.randint(0, d - 1)] = 1.0 if r.chance(0.5) else -1.0
+        return v
+    v = [r.normal() for _ in range(d)]
+    nv = math.sqrt(sum(x * x for x in v)) or 1.0
+    return [x / nv for x in v]
+
+
+def shell_delta(r):
+    """relative excess of the marginal row over the norm: k*1e-7 .. 1e-5 mostly, sometimes tiny or clearly outside"""
+    m = r.u01()
+    if m < 0.7:
+        return r.loguniform(1e-8, 9.9e-6)
+    if m < 0.8:
+        return r.choice([1e-5, 5e-6, 1e-6, 1e-7])
+    if m < 0.9:
+        return r.loguniform(1e-12, 1e-8)
+    return r.loguniform(1.1e-5, 1e-3)
+
+
+def shell_rows(r, n, d, R, centre, delta):
+    """rows = centre + v: one marginal row (index returned) of norm R*(1+delta), all others inside the ball of radius R
+    (some exactly on it)"""
+    rows = []
+    i0 = r.randint(0, n - 1)
+    for i in range(n):
+        u = unit_vector(r, d)
+        if i == i0:
+            s_ = R * (1 + delta)
+        else:
+            s_ = R * r.choice([1.0, 0.999, r.uniform(0.0, 0.99), r.uniform(0.5, 0.999)])
+        rows.append([c + s_ * x for c, x in zip(centre, u)])
+    return rows, i0
+
+
 def gen_case(r, ctx, model):
+    if model in ("pca", "logreg") and r.chance(0.3):
+        return gen_shell_case(r, ctx, model)
     d = r.randint(1, 10) if r.chance(0.7) else r.randint(1, 3)
     n = gen_n(r, ctx)
     mode = r.choice(["in", "mixed", "mixed", "corner", "corner", "onecorner"])
@@ -223,13 +273,81 @@ def gen_case(r, ctx, model):
     return case
 
 
+def gen_shell_case(r, ctx, model):
+    """norm-domain models on a thin shell: the largest (centred) row norm is data_norm*(1+delta) with every other row
+    inside the ball — a clip that is skipped 'within tolerance' lets that row reach the mechanisms unclipped"""
+    d = r.randint(2, 10) if r.chance(0.85) else 1
+    n = max(gen_n(r, ctx), d + 1)
+    R = r.choice([1.0, 1.0, 0.5, 3.0, r.loguniform(0.1, 20)])
+    delta = shell_delta(r)
+    case = {"model": model, "seed": r.randint(0, 2 ** 31 - 2), "mode": "shell"}
+    p = {"epsilon": gen_eps(r), "data_norm": R}
+    centre = [0.0] * d
+    if model == "pca":
+        p["centered"] = r.chance(0.6)
+        nc = r.choice([None, "k", "d"])
+        p["n_components"] = r.randint(1, d) if nc == "k" else (d if nc == "d" else None)
+        p["lo"], p["hi"], p["scalar_bounds"] = [-4.0 * R] * d, [4.0 * R] * d, True
+        if not p["centered"]:
+            centre = [r.uniform(-R, R) for _ in range(d)]
+            case["force_mean"] = centre      # the noisy mean the recording run replays (any value is a possible output)
+    else:
+        k = r.randint(2, 4)
+        n = max(n, 2 * k)
+        p["k"], p["fit_intercept"], p["C"] = k, r.chance(0.7), r.choice([1.0, 0.1, 10.0])
+        p["lo"], p["hi"] = [-R] * d, [R] * d
+        case["y"] = gen_labels(r, n, k)
+    rows, i0 = shell_rows(r, n, d, R, centre, delta)
+    case["X"] = rows
+    case["shell"] = {"index": i0, "delta": delta, "centre": centre}
+    case["params"] = p
+    return case
+
+
+def shell_replacements(r, case):
+    """swap the marginal row: orthogonal marginal row, its negative, an axis-aligned one, an interior row; and turn
+    another row into a second marginal one"""
+    X, sh, p = case["X"], case["shell"], case["params"]
+    d, R, c, dl, i0 = len(X[0]), p["data_norm"], sh["centre"], sh["delta"], sh["index"]
+    v = [x - ci for x, ci in zip(X[i0], c)]
+    nv = math.sqrt(sum(x * x for x in v)) or 1.0
+    y0 = None if case.get("y") is None else case["y"][i0]
+    outs = []
+
+    def rep(i, vec, kind, y=y0):
+        outs.append({"index": i, "x": [ci + x for ci, x in zip(c, vec)], "y": y, "kind": kind})
+    if d >= 2:
+        # an orthogonal direction of the same (marginal) length
+        a = max(range(d), key=lambda j: abs(v[j]))
+        b = (a + 1 + r.randint(0, d - 2)) % d
+        w = [0.0] * d
+        w[a], w[b] = -v[b], v[a]
+        if all(x == 0 for x in w):
+            w[b] = nv
+        nw = math.sqrt(sum(x * x for x in w))
+        rep(i0, [x * nv / nw for x in w], "shell-orthogonal")
+        e = [0.0] * d
+        e[b] = R * (1 + dl)
+        rep(i0, e, "shell-axis")
+    rep(i0, [-x for x in v], "shell-negated")
+    rep(i0, [x * 0.5 for x in unit_vector(r, d)], "shell-interior")
+    j = (i0 + 1) % len(X)
+    rep(j, [R * (1 + shell_delta(r)) * x for x in unit_vector(r, d)], "shell-second",
+        None if case.get("y") is None else case["y"][j])
+    if case.get("y") is not None:
+        rep(i0, [-x for x in v], "shell-negated-label", r.randint(0, p["k"] - 1))
+    return outs
+
+
 def gen_replacements(r, case, m):
     """m single-record replacements: dicts {index, x (list) , y (label / list / None), kind}"""
+    if case.get("shell"):
+        return shell_replacements(r, case)
     X, y, p, model = case["X"], case.get("y"), case["params"], case["model"]
     n, d = len(X), len(X[0])
     lo, hi = p["lo"], p["hi"]
     out = []
-    kinds = ["corner", "corner", "opposite", "random", "perturb", "copy", "label", "both", "out"]
+    kinds = ["corner", "corner", "opposite", "random", "perturb", "copy", "label", "both", "out", "hair"]
     for _ in range(m):
         kind = r.choice(kinds)
         i = r.randint(0, n - 1)
@@ -248,9 +366,16 @@ def gen_replacements(r, case, m):
             x = list(X[i2])
             if y is not None and r.chance(0.7):
                 newy = list(y[i2]) if isinstance(y[i2], list) else y[i2]
+        elif kind == "hair":
+            # the opposite corner, every coordinate a hair outside its bound
+            x = []
+            for j in range(d):
+                up = X[i][j] <= (lo[j] + hi[j]) / 2
+                h = hair_outside(r, lo[j], hi[j])
+                x.append(h if (h > hi[j]) == up else (hi[j] + (lo[j] - h) if up else lo[j] - (h - hi[j])))
         elif kind == "out":
             x = [(hi[j] + 2 * (hi[j] - lo[j])) if r.chance(0.5) else (lo[j] - 2 * (hi[j] - lo[j])) for j in range(d)]
-        if y is not None and kind in ("label", "both", "corner", "opposite", "random", "out"):
+        if y is not None and kind in ("label", "both", "corner", "opposite", "random", "out", "hair"):
             if model == "linreg":
                 if kind != "label" or True:
                     ylo, yhi = p["ylo"], p["yhi"]
@@ -464,6 +589,9 @@ def run_fit(case, X, y, forced=None):
     def record_force(c, idx):
         # the recording run uses the real samplers, except Bingham: its rejection sampler can take minutes when
         # epsilon x eigen-gap is large; any unit vector is a possible output, so a scheduled one is replayed instead
+        fm = case.get("force_mean")
+        if fm is not None and c.cls == "LaplaceTruncated" and idx < len(fm):
+            return float(fm[idx])
         if c.cls == "Bingham":
             d = c.value.shape[0]
             if d == 1:
@@ -840,6 +968,15 @@ def regression_cases(r):
             reps = [{"index": i, "x": [11.0] * d if i % 2 == 0 else [10.0] * d, "y": None, "kind": "opposite"}
                     for i in range(6)]
             out.append((case, reps))
+    # KMeans re-fitted after its bounds were widened (estimator re-use): noise must be calibrated to the CURRENT bounds.
+    # Bounds (0, 4) after a first fit with (1, 3): a record going from 0 to 4 moves a coordinate sum by 4.
+    for d in (1, 3):
+        n = 16
+        X = [[0.0] * d if i % 2 == 0 else [4.0] * d for i in range(n)]
+        case = {"model": "kmeans", "seed": r.randint(0, 2 ** 31 - 2), "mode": "regression:kmeans-refit", "prefit": True,
+                "params": {"epsilon": 50.0, "lo": [0.0] * d, "hi": [4.0] * d, "scalar_bounds": True, "k": 2}, "X": X}
+        reps = [{"index": i, "x": [4.0] * d if i % 2 == 0 else [0.0] * d, "y": None, "kind": "opposite"} for i in range(4)]
+        out.append((case, reps))
     # GaussianNB: class-sum sensitivity u-l with bounds (10, 11): a label change moves a class sum by >= 10
     for d in (1, 3):
         n = 12
